@@ -160,6 +160,8 @@ class Unit:
             elif cmd == 'rename':
                 a, b = rest.split()
                 self.renames[a] = b
+            elif cmd == 'unrename':
+                self.renames.pop(rest.strip(), None)
             elif cmd in ('fn', 'sig', 'item'):
                 self.do_extract(cmd, rest, parse_clauses(clause_lines), path, ln, indent)
             elif cmd == 'strlits':
